@@ -180,11 +180,37 @@ fn style_of(n: u64) -> DisplayStyle {
 /// One simulated fresh process: the real `build_command` against the simulated
 /// disk under the given entropy seed.
 pub fn run_build(project: &Project, faults: &[Fault], entropy_seed: u64, style: u64) -> Outcome {
+    run_build_on(project, faults, entropy_seed, style, None)
+}
+
+/// The disk is what survives a process. "Building the same project repeatedly" mostly means building it again in the
+/// directory the previous build left behind: the next simulated process finds every output of the first one already
+/// there - here each with 48 further bytes at its end, as a longer output of an earlier version of the project would
+/// leave them. Whatever the second build leaves must equal what the first one left in an empty target directory.
+pub fn run_rebuild(project: &Project, faults: &[Fault], entropy_seed: u64, style: u64, first: &Outcome) -> Outcome {
+    let mut stale = BTreeMap::new();
+    for (k, v) in &first.files {
+        let mut b = v.clone();
+        b.extend_from_slice(&[0xAAu8; 48]);
+        stale.insert(k.clone(), b);
+    }
+    run_build_on(project, faults, entropy_seed, style, Some(stale))
+}
+
+/// A pair of builds to compare: two fresh processes under two entropy seeds, or (equal seeds) a build and a second
+/// build on what the first one left behind.
+pub fn run_pair(project: &Project, faults: &[Fault], sa: u64, sb: u64, style: u64) -> (Outcome, Outcome) {
+    let a = run_build(project, faults, sa, style);
+    let b = if sa == sb { run_rebuild(project, faults, sb, style, &a) } else { run_build(project, faults, sb, style) };
+    (a, b)
+}
+
+fn run_build_on(project: &Project, faults: &[Fault], entropy_seed: u64, style: u64, stale: Option<BTreeMap<String, Vec<u8>>>) -> Outcome {
     let project = project.clone();
     let faults = faults.to_vec();
     let res = fresh_thread(16 << 20, move || {
         entropy::set_seed(Some(entropy_seed));
-        let o = build_here(&project, &faults, style);
+        let o = build_here(&project, &faults, style, stale.as_ref());
         entropy::set_seed(None);
         o
     });
@@ -209,12 +235,26 @@ pub fn run_build(project: &Project, faults: &[Fault], entropy_seed: u64, style: 
 
 /// The build itself, in the simulated process the caller has set up (entropy seed, and in the thread flavour the
 /// scheduler): installs the project's disk, runs the real `build_command`, takes the disk away again.
-fn build_here(project: &Project, faults: &[Fault], style: u64) -> Outcome {
+fn build_here(project: &Project, faults: &[Fault], style: u64, stale: Option<&BTreeMap<String, Vec<u8>>>) -> Outcome {
     {
         let mut d0 = project.disk();
         d0.faults = faults.to_vec();
         disk::install(d0);
         let initial: BTreeSet<_> = disk::with(|d| d.files.keys().cloned().collect()).unwrap();
+        // what an earlier build left behind (not part of `initial`: it is reported with the outputs)
+        if let Some(st) = stale {
+            disk::with(|d| {
+                for (k, v) in st {
+                    if let Some(dir) = Path::new(k).parent() {
+                        let _ = d.create_dir_all(dir);
+                    }
+                    if !d.files.contains_key(Path::new(k)) {
+                        d.add_file(k, v.clone());
+                    }
+                }
+                d.log.clear();
+            });
+        }
         let r = std::panic::catch_unwind(std::panic::AssertUnwindSafe(|| {
             let cfg = if project.toml.is_empty() {
                 Ok(Config::default())
@@ -286,7 +326,7 @@ pub fn run_build_scheduled(project: &Project, faults: &[Fault], entropy_seed: u6
     let (p2, f2) = (project.clone(), faults.to_vec());
     let knobs = ExecKnobs { max_steps: 2_000_000, ..ExecKnobs::default() };
     let out = run_execution(sched_seed, entropy_seed, mos_simrt::disk::SimDisk::new(), &knobs, move |slot| {
-        let o = build_here(&p2, &f2, style);
+        let o = build_here(&p2, &f2, style, None);
         *slot.lock().unwrap() = Some(o);
     });
     let (tasks, switches) = (out.sched.tasks_seen as u64, out.sched.context_switches);
@@ -532,6 +572,15 @@ fn check_project(p: &Project, faults: &[Fault], seeds: &[u64], style: u64) -> Ch
         }
         outcomes.push((*s, o));
     }
+    // the same project built again where the first build left its outputs (equal seeds = "rebuild", see run_pair)
+    if divergence.is_none() && faults.is_empty() {
+        if let Some((s0, o0)) = outcomes.first() {
+            let o = run_rebuild(p, faults, *s0, style, o0);
+            if let Some((class, sig, msg)) = classify(o0, &o) {
+                divergence = Some((*s0, *s0, class, format!("r:{}", sig), format!("second build in the directory the first one left behind: {}", msg)));
+            }
+        }
+    }
     CheckResult {
         outcomes,
         divergence,
@@ -674,14 +723,15 @@ fn replay(cli: &Cli, path: &Path) -> i32 {
             }
         }
     } else {
-        (run_build(&project, &faults, seeds[0], style), run_build(&project, &faults, seeds[1], style))
+        run_pair(&project, &faults, seeds[0], seeds[1], style)
     };
+    let rebuild = !scheduled && !separate && seeds[0] == seeds[1];
     let mut log = rng::fnv64(&a.digest().to_le_bytes());
     log = rng::fnv64_extend(log, &b.digest().to_le_bytes());
     let r = match classify(&a, &b) {
         Some((class, sig, msg)) => ReplayResult {
             violated: true,
-            sig: if scheduled { format!("t:{}", sig) } else if separate { format!("x:{}", sig) } else { sig },
+            sig: if scheduled { format!("t:{}", sig) } else if separate { format!("x:{}", sig) } else if rebuild { format!("r:{}", sig) } else { sig },
             class,
             message: format!(
                 "{}\n--- entropy seed {:#x}: status={} ---\n{}{}\n--- entropy seed {:#x}: status={} ---\n{}{}",
@@ -900,10 +950,10 @@ pub fn main(cli: &Cli) -> i32 {
                 if acc.violations.iter().filter(|v| v.sig == sig).count() == 0 {
                     let (mp, ma, mb) = minimise(&p, &faults, &seeds, style, &class);
                     // recompute signature on the minimised project
-                    let a = run_build(&mp, &faults, ma, style);
-                    let b = run_build(&mp, &faults, mb, style);
-                    let (class2, sig2, msg2) =
-                        classify(&a, &b).unwrap_or((class.clone(), sig.clone(), msg.clone()));
+                    let (a, b) = run_pair(&mp, &faults, ma, mb, style);
+                    let (class2, sig2, msg2) = classify(&a, &b)
+                        .map(|(c, s, m)| if ma == mb { (c, format!("r:{}", s), format!("second build in the directory the first one left behind: {}", m)) } else { (c, s, m) })
+                        .unwrap_or((class.clone(), sig.clone(), msg.clone()));
                     acc.violations.push(Violation {
                         property: PROP,
                         class: class2,
